@@ -360,6 +360,7 @@ where
         |v: &T, _hint: &[u8]| abi::encode_cbor(v).map_err(|e| format!("{e:?}")),
         samples,
     )
+    .with_prefilter(crate::cbor_count_exceeds_input)
 }
 
 fn h32(x: u8) -> [u8; 32] {
@@ -834,7 +835,7 @@ pub fn codecs() -> Vec<Codec> {
         |b: &[u8]| abi::decode_value(b),
         |v: &Value, _h: &[u8]| abi::encode_value(v).map_err(|e| format!("{e:?}")),
         abi_values,
-    ));
+    ).with_prefilter(crate::cbor_count_exceeds_input));
     t.push(dto::<kp::AbiError>("AbiError", 8, s_abi_error));
     t.push(dto::<kp::HeadInfo>("HeadInfo", 16, s_head_info));
     t.push(dto::<kp::SchedulerStatus>("SchedulerStatus", 32, s_sched));
@@ -878,7 +879,7 @@ pub fn codecs() -> Vec<Codec> {
         |b: &[u8]| abi::unpack_control_intent_v1(b),
         |v: &kp::ControlIntentV1, _h: &[u8]| abi::pack_control_intent_v1(v).map_err(|e| format!("{e:?}")),
         s_control,
-    ));
+    ).with_prefilter(crate::eint_cbor_count_exceeds_input));
     t.push(mk(
         "eintlog",
         "eintlog",
